@@ -342,7 +342,8 @@ func Replay(w *World, o *Outcome, replayJSON string) *ReplayResult {
 		rr.Reason = "postcondition held on the real code with the model input (not reproduced)"
 	case strings.Contains(s, "REPLAY-RESULT") || strings.Contains(s, "REPLAY-AFTER"):
 		rr.Reason = "real code ran to completion on the model input; outputs recorded (contract mismatch is established by the solver model over these inputs)"
-		rr.Confirmed = o.Kind == "post" || o.Kind == "frame" || o.Kind == "lemma"
+		rr.Confirmed = false
+		rr.Reason = "real code ran to completion on the model input; outputs recorded, but no executable form of the violated clause was available to evaluate on them (not confirmed)"
 		if strings.HasPrefix(o.Kind, "safety") || o.Kind == "variant" {
 			rr.Confirmed = false
 			rr.Reason = "model input did not make the real code panic/hang (not reproduced)"
